@@ -110,7 +110,13 @@ def judge(prop, nthreads, ncalls, hist, sections, r):
     if "hang" in r:
         return [("deadlock", "thread %d never reached its next synchronisation point (step %s of the schedule)" % (r["thread"], r["hang"]))], None
     if "unschedulable" in r:
-        return [], "schedule not executable cooperatively: thread %d blocked outside a scheduling point at step %s but the process finished when released" % (r["thread"], r["unschedulable"])
+        vv = []
+        if prop == "C10":          # children forked before the schedule became unexecutable still count
+            for ch in r.get("children", []):
+                if ch["status"] != 1:
+                    kind = {2: "child-deadlock", 3: "child-died", 4: "child-stuck"}.get(ch["status"], "child")
+                    vv.append((kind, "child forked by thread %d: %s" % (ch["t"], ch["note"])))
+        return vv, "schedule not executable cooperatively: thread %d blocked outside a scheduling point at step %s but the process finished when released" % (r["thread"], r["unschedulable"])
     if "final" not in r:
         return [("no-result", "schedule did not complete: %r" % r)], None
     drift = r["first_drift"] if r.get("drift") else None
